@@ -39,6 +39,10 @@ type Scn struct {
 	Mode        string  `json:"mode"` // free | barrier | last
 	MainSubmits bool    `json:"main_submits"`
 	Rounds      []Round `json:"rounds"`
+	// CloseEarly: the last round is closed without a Wait, while workers are busy
+	// and tasks are queued (all Submit calls have returned). Queued tasks may be
+	// dropped; the in-flight limit holds throughout.
+	CloseEarly bool `json:"close_early,omitempty"`
 }
 
 func gen(prop, tier string, r *rand.Rand, idx int) any {
@@ -158,6 +162,21 @@ func gen(prop, tier string, r *rand.Rand, idx int) any {
 			}
 			sc.Rounds = append(sc.Rounds, rd)
 		}
+	}
+	if prop == "C08" && r.IntN(8) == 0 {
+		sc.Mode = []string{"last", "free"}[r.IntN(2)]
+		sc.MainSubmits = true
+		sc.CloseEarly = true
+		var ts []Task
+		for k := eff + 1 + r.IntN(2*eff); k > 0; k-- { // busy workers plus a backlog the queue can hold
+			tk := Task{ID: id}
+			id++
+			if sc.Mode == "free" {
+				tk.SleepMs = 5 + r.IntN(20)
+			}
+			ts = append(ts, tk)
+		}
+		sc.Rounds = []Round{{Subs: [][]Task{ts}}}
 	}
 	if sc.Mode == "dep" {
 		// up to max(size,1) mutually dependent tasks per round, anywhere in the round
@@ -376,6 +395,9 @@ func run(t *testing.T, prop string, x any, cfg simrt.Config) *eng.Outcome {
 				submitAll(0, rd.Subs[0])
 			}
 			join.Wait()
+			if sc.CloseEarly && ri == len(sc.Rounds)-1 {
+				break
+			}
 			var lateJoin simsync.WaitGroup
 			for si, ts := range rd.Late {
 				lateJoin.Add(1)
